@@ -264,6 +264,9 @@ def run_case(case: dict):
         # bytes after a non-2x header: a malformed upstream response (43 or relay of the header)
         ref = ("grey-or", ref)
     info["ref"] = ref[0]
+    if ref == ("grey", "meta-over-1024-bytes") and fault is None:
+        # for a client either reading is fine; the proxy cannot relay such a header in a well-formed response: 43
+        ref = ("resp", 0, data[:hdr_end].decode("utf-8", "replace").rstrip("\r\n").partition(" ")[2], None)
     if ref[0] == "resp" and fault is None:
         m0 = ref[2]
         if "\r" in m0 or "\n" in m0 or len(m0.encode("utf-8", "replace")) > 1024:
